@@ -164,6 +164,24 @@ def _mono_mul(a, b):
     return tuple(out), coef
 
 
+# IEEE mode (opt-in per scenario): division by an identically zero value gives a NaN element that absorbs every sum and product
+# (0 * NaN = NaN), as in floating-point array arithmetic; comparisons with it are False.  Off by default: division by zero is UNDECIDED.
+IEEE = [False]
+_NANKEY = [None]
+
+
+def _nan_poly():
+    if _NANKEY[0] is None:
+        g = sym("NaN")
+        (_NANKEY[0],) = g.t.keys()
+    return Poly({_NANKEY[0]: F1})
+
+
+def _has_nan_poly(p):
+    k = _NANKEY[0]
+    return k is not None and any(m == k or (len(m) > 0 and any(g == k[0][0] for g, _ in m)) for m in p.t)
+
+
 class Poly:
     __slots__ = ("t", "_h")
 
@@ -208,6 +226,8 @@ class Poly:
             o = _coerce(o)
             if o is NotImplemented:
                 return o
+        if IEEE[0] and _NANKEY[0] is not None and (_has_nan_poly(self) or _has_nan_poly(o)):
+            return _nan_poly()
         if not o.t:
             return self
         if not self.t:
@@ -252,6 +272,8 @@ class Poly:
             o = _coerce(o)
             if o is NotImplemented:
                 return o
+        if IEEE[0] and _NANKEY[0] is not None and (_has_nan_poly(self) or _has_nan_poly(o)):
+            return _nan_poly()
         a, b = self.t, o.t
         if not a or not b:
             return ZERO
@@ -648,6 +670,9 @@ def const_pow(c, e):
 
 def inv(b):
     b = P(b)
+    if IEEE[0]:
+        if not b.t or _has_nan_poly(b):
+            return _nan_poly()
     if not b.t:
         raise Undecided("division by (identically) zero")
     if len(b.t) == 1:
